@@ -2,6 +2,7 @@
    (tokens, addresses, envelope, flags) is RoundTripBase.v, the second (body structures) RoundTripBody.v. *)
 From TI Require Import Bytes Grammar Nom Interp InterpFacts Thm_Number Thm_Fuel Natives Proofs_C01 RoundTrip Spec.
 From TI Require Export RoundTripBase RoundTripBody.
+From TI Require Import IdMap EntryNames.
 From TI.gen Require Import ImapGrammar.
 From Coq Require Import Lia Arith PeanoNat.
 Local Open Scope N_scope.
@@ -1262,7 +1263,7 @@ Qed.
 Definition code_alts : list G :=
   match def_rfc3501_x_resp_text_code with Map _ (Seq [_; Alt l; _]) => l | _ => [] end.
 
-Lemma ok_code_alt c w d : enc_code c w -> OK (Alt code_alts) d w c nodigit.
+Lemma ok_code_alt_simple c w d : enc_code_simple c w -> OK (Alt code_alts) d w c nodigit.
 Proof.
   intro H. unfold code_alts. cbn [def_rfc3501_x_resp_text_code].
   destruct H as [w Hk | w Hk | w Hk | w Hk | w Hk | k n w Hk Hn | k n w Hk Hn | k n w Hk Hn | k n w Hk Hn]; unfold kw in Hk.
@@ -1294,6 +1295,416 @@ Proof.
     reflexivity.
 Qed.
 
+Definition kw_char (b : byte) : bool := ((65 <=? b) && (b <=? 90)) || ((97 <=? b) && (b <=? 122)) || ((48 <=? b) && (b <=? 57)) || (b =? 61).
+
+Lemma kw_chars_ok K w : forallb kw_char K = true -> same_nocase K w = true ->
+  forallb cls_core_x_is_atom_char w = true /\ forallb (fun b => b <=? 127) w = true.
+Proof.
+  revert w; induction K as [|a K IH]; intros [|b w] HK H; try discriminate; [split; reflexivity|].
+  cbn [forallb] in HK. apply andb_true_iff in HK. destruct HK as [Ha HK].
+  cbn [same_nocase] in H. apply andb_true_iff in H. destruct H as [Hab H].
+  destruct (IH w HK H) as [I1 I2]. cbn [forallb]. rewrite I1, I2.
+  assert (Hlt : a < 256).
+  { unfold kw_char in Ha. repeat (apply orb_true_iff in Ha; destruct Ha as [Ha | Ha]);
+      try (apply andb_true_iff in Ha; destruct Ha as [_ Ha]; apply N.leb_le in Ha; lia). apply N.eqb_eq in Ha. lia. }
+  pose proof (sweep (fun a => implb (kw_char a) (forallb (fun b => cls_core_x_is_atom_char b && (b <=? 127)) (variants a))) ltac:(vm_compute; reflexivity) a Hlt) as Hx.
+  cbv beta in Hx. rewrite Ha in Hx. cbn [implb] in Hx. rewrite forallb_forall in Hx.
+  specialize (Hx b (lower_variants a b Hab)). apply andb_true_iff in Hx. destruct Hx as [X1 X2]. rewrite X1, X2. split; reflexivity.
+Qed.
+
+Lemma env_capability_data : env f_rfc3501_x_capability_data = Some def_rfc3501_x_capability_data. Proof. reflexivity. Qed.
+Lemma env_capability : env f_rfc3501_x_capability = Some def_rfc3501_x_capability. Proof. reflexivity. Qed.
+Lemma env_atom : env f_core_x_atom = Some def_core_x_atom. Proof. reflexivity. Qed.
+
+Lemma ok_atom_bytes a d : a <> [] -> forallb cls_core_x_is_atom_char a = true -> forallb (fun b => b <=? 127) a = true ->
+  OK (Ref f_core_x_atom DSame) d a (VBytes a) (stops_at cls_core_x_is_atom_char).
+Proof.
+  intros Hne Hc H7. apply (okref _ _ _ _ _ _ _ env_atom). unfold def_core_x_atom.
+  eapply ok_mapres. { apply ok_take_while1; assumption. } cbn. unfold native_call. cbn. rewrite (ascii_utf8 a H7). reflexivity.
+Qed.
+
+Lemma ok_cap c w d : enc_cap c w -> OK (Ref f_rfc3501_x_capability DSame) d w c (stops_at cls_core_x_is_atom_char).
+Proof.
+  intro H. apply (okref _ _ _ _ _ _ _ env_capability). unfold def_rfc3501_x_capability.
+  destruct H as [w Hk | p m Hp Hne Hm | a Hne Ha N1 N2]; unfold kw in *.
+  - destruct (kw_chars_ok (bs "IMAP4rev1") w ltac:(reflexivity) Hk) as [C1 C2].
+    eapply ok_map. { apply ok_atom_bytes; [destruct w; discriminate | exact C1 | exact C2]. }
+    cbn. unfold native_call. cbn. unfold classify_capability. rewrite (same_nocase_eq_nocase _ _ Hk). reflexivity.
+  - destruct (kw_chars_ok (bs "AUTH=") p ltac:(reflexivity) Hp) as [C1 C2].
+    assert (Hm1 : forallb cls_core_x_is_atom_char m = true) by (apply (forallb_impl rfc_ATOM_CHAR); [intros x Hx; exact (proj1 (atom_char_facts x Hx)) | exact Hm]).
+    assert (Hm2 : forallb (fun b => b <=? 127) m = true) by (apply (forallb_impl rfc_ATOM_CHAR); [intros x Hx; exact (proj1 (proj2 (proj2 (atom_char_facts x Hx)))) | exact Hm]).
+    eapply ok_map.
+    { apply ok_atom_bytes; [destruct p; discriminate | rewrite forallb_app, C1, Hm1; reflexivity |].
+      change byte with N in *. rewrite forallb_app, C2, Hm2. reflexivity. }
+    cbn. unfold native_call. cbn. unfold classify_capability.
+    (* p has exactly five bytes *)
+    change (bs "AUTH=") with [65; 85; 84; 72; 61] in Hp |- *. change (bs "IMAP4rev1") with [73; 77; 65; 80; 52; 114; 101; 118; 49].
+    destruct p as [|p1 [|p2 [|p3 [|p4 [|p5 [|p6 p']]]]]]; cbn [same_nocase] in Hp; rewrite ?andb_false_r in Hp; try discriminate Hp.
+    pose proof Hp as Hp0. apply andb_true_iff in Hp. destruct Hp as [Hp1 _].
+    assert (E1 : eq_nocase ([p1; p2; p3; p4; p5] ++ m) [73; 77; 65; 80; 52; 114; 101; 118; 49] = false).
+    { unfold eq_nocase. cbn [app list_eqb]. unfold eq_nocase1 in Hp1. apply N.eqb_eq in Hp1.
+      replace (lower p1 =? lower 73) with false; [reflexivity|]. symmetry. apply N.eqb_neq. rewrite <- Hp1. discriminate. }
+    rewrite E1.
+    assert (E2 : Nat.ltb 5 (length ([p1; p2; p3; p4; p5] ++ m)) = true).
+    { apply Nat.ltb_lt. rewrite app_length. cbn [length]. destruct m; [contradiction | cbn [length]; lia]. }
+    rewrite E2. cbn [app firstn skipn andb].
+    rewrite (same_nocase_eq_nocase [65; 85; 84; 72; 61] [p1; p2; p3; p4; p5] Hp0). reflexivity.
+  - eapply ok_map.
+    { apply ok_atom_bytes; [exact Hne | |].
+      - apply (forallb_impl rfc_ATOM_CHAR); [intros x Hx; exact (proj1 (atom_char_facts x Hx)) | exact Ha].
+      - apply (forallb_impl rfc_ATOM_CHAR); [intros x Hx; exact (proj1 (proj2 (proj2 (atom_char_facts x Hx)))) | exact Ha]. }
+    cbn. unfold native_call. cbn. unfold classify_capability. rewrite N1, N2. reflexivity.
+Qed.
+
+Definition cap_item : G := Map proj12 (Seq [Leaf (LTag (bs " ")); Ref f_rfc3501_x_capability DSame]).
+Definition caps_end (rest : list byte) : Prop :=
+  match rest with
+  | 13 :: _ => True
+  | 32 :: c :: _ => cls_core_x_is_atom_char c = false
+  | _ => False
+  end.
+
+Lemma byte_13_32 c0 (P : Prop) : (c0 = 13 -> P) -> (c0 = 32 -> P) -> (c0 <> 13 -> c0 <> 32 -> P) -> P.
+Proof. intros A B C. destruct (N.eq_dec c0 13); [auto|]. destruct (N.eq_dec c0 32); auto. Qed.
+
+Lemma caps_end_inv rest : caps_end rest ->
+  (exists r, rest = 13 :: r) \/ (exists c r, rest = 32 :: c :: r /\ cls_core_x_is_atom_char c = false).
+Proof.
+  destruct rest as [|c0 r]; [intros []|]. intro H.
+  apply (byte_13_32 c0); intros.
+  - subst. left. eexists. reflexivity.
+  - subst. destruct r as [|c r']; [destruct H|]. right. exists c, r'. split; [reflexivity | exact H].
+  - exfalso. cbn in H. destruct c0 as [|p]; [exact H|].
+    repeat (destruct p as [p|p|]; try exact H; try (apply H0; reflexivity); try (apply H1; reflexivity)).
+Qed.
+
+Lemma rej_atom_nonatom c i d : cls_core_x_is_atom_char c = false -> REJ (Ref f_rfc3501_x_capability DSame) d (c :: i).
+Proof.
+  intro H. apply (rejref _ _ _ _ _ env_capability). unfold def_rfc3501_x_capability. apply rej_map.
+  apply (rejref _ _ _ _ _ env_atom). unfold def_core_x_atom. apply rej_mapres, rej_take_while1. exact H.
+Qed.
+
+Lemma rej_cap_item rest d : caps_end rest -> REJ cap_item d rest.
+Proof.
+  intro H. unfold cap_item. apply rej_map. destruct (caps_end_inv rest H) as [(r & ->) | (c & r & -> & Hc)].
+  - apply rej_seq_head, rej_tag. reflexivity.
+  - change (32 :: c :: r) with ([32] ++ (c :: r)).
+    eapply (rej_seq_after _ _ _ _ _ _ _ _ any); [apply ok_tag | exact I |]. apply rejseq_head. apply rej_atom_nonatom, Hc.
+Qed.
+
+Lemma okmany_caps l ws d : enc_caps l ws -> OkMany native_call env rk cap_item d ws l caps_end.
+Proof.
+  intro H. induction H as [| c w l ws Hc Hl IH].
+  - apply okmany_nil. intros rest Hr. apply rej_cap_item, Hr.
+  - unfold SPb. rewrite app_assoc. eapply (okmany_cons _ _ _ _ _ _ _ _ _ (stops_at cls_core_x_is_atom_char)).
+    + unfold cap_item. eapply ok_map.
+      { apply ok_seq. regroup ([32] ++ (w ++ [])).
+        eapply (okseq_cons _ _ _ _ _ _ _ _ _ _ any (stops_at cls_core_x_is_atom_char)); [apply ok_tag | | intros; exact I].
+        eapply (okseq_cons _ _ _ _ _ _ _ _ _ _ (stops_at cls_core_x_is_atom_char) (stops_at cls_core_x_is_atom_char)); [apply ok_cap, Hc | apply (okseq_nil _ _ _ _ (stops_at cls_core_x_is_atom_char)) | intros r Hr; exact Hr]. }
+      reflexivity.
+    + discriminate.
+    + exact IH.
+    + intros rest Hr. destruct Hl; cbn [app].
+      * destruct (caps_end_inv rest Hr) as [(r & ->) | (c0 & r & -> & _)]; reflexivity.
+      * reflexivity.
+Qed.
+
+Lemma okmany_caps_gen (F : list byte -> Prop) l ws d : (forall rest, F rest -> REJ cap_item d rest) ->
+  (forall rest, F rest -> stops_at cls_core_x_is_atom_char rest) -> enc_caps l ws -> OkMany native_call env rk cap_item d ws l F.
+Proof.
+  intros HR HS H. induction H as [| c w l ws Hc Hl IH].
+  - apply okmany_nil. exact HR.
+  - unfold SPb. rewrite app_assoc. eapply (okmany_cons _ _ _ _ _ _ _ _ _ (stops_at cls_core_x_is_atom_char)).
+    + unfold cap_item. eapply ok_map.
+      { apply ok_seq. regroup ([32] ++ (w ++ [])).
+        eapply (okseq_cons _ _ _ _ _ _ _ _ _ _ any (stops_at cls_core_x_is_atom_char)); [apply ok_tag | | intros; exact I].
+        eapply (okseq_cons _ _ _ _ _ _ _ _ _ _ (stops_at cls_core_x_is_atom_char) (stops_at cls_core_x_is_atom_char)); [apply ok_cap, Hc | apply (okseq_nil _ _ _ _ (stops_at cls_core_x_is_atom_char)) | intros r Hr; exact Hr]. }
+      reflexivity.
+    + discriminate.
+    + exact IH.
+    + intros rest Hr. destruct Hl; cbn [app]; [apply HS, Hr | reflexivity].
+Qed.
+
+Lemma contains_rev1_early l : In (VCon "Capability::Imap4rev1" []) l -> contains_imap4rev1 (VList l) = true.
+Proof. intro H. unfold contains_imap4rev1. apply existsb_exists. eexists. split; [exact H | reflexivity]. Qed.
+
+Lemma env_code_cap : env f_rfc3501_x_resp_text_code_capability = Some def_rfc3501_x_resp_text_code_capability. Proof. reflexivity. Qed.
+
+(* ---- the codes that carry lists: PERMANENTFLAGS, BADCHARSET, APPENDUID / COPYUID (RFC 4315), and the METADATA codes *)
+Lemma env_code_uns : env f_rfc4315_x_resp_text_code_uid_not_sticky = Some def_rfc4315_x_resp_text_code_uid_not_sticky. Proof. reflexivity. Qed.
+Lemma env_code_mtm : env f_rfc5464_x_resp_text_code_metadata_too_many = Some def_rfc5464_x_resp_text_code_metadata_too_many. Proof. reflexivity. Qed.
+Lemma env_code_mnp : env f_rfc5464_x_resp_text_code_metadata_no_private = Some def_rfc5464_x_resp_text_code_metadata_no_private. Proof. reflexivity. Qed.
+Lemma env_code_mle : env f_rfc5464_x_resp_text_code_metadata_long_entries = Some def_rfc5464_x_resp_text_code_metadata_long_entries. Proof. reflexivity. Qed.
+Lemma env_code_mms : env f_rfc5464_x_resp_text_code_metadata_max_size = Some def_rfc5464_x_resp_text_code_metadata_max_size. Proof. reflexivity. Qed.
+Lemma env_code_pf : env f_rfc3501_x_resp_text_code_permanent_flags = Some def_rfc3501_x_resp_text_code_permanent_flags. Proof. reflexivity. Qed.
+Lemma env_code_bc : env f_rfc3501_x_resp_text_code_badcharset = Some def_rfc3501_x_resp_text_code_badcharset. Proof. reflexivity. Qed.
+Lemma env_code_au : env f_rfc4315_x_resp_text_code_append_uid = Some def_rfc4315_x_resp_text_code_append_uid. Proof. reflexivity. Qed.
+Lemma env_code_cu : env f_rfc4315_x_resp_text_code_copy_uid = Some def_rfc4315_x_resp_text_code_copy_uid. Proof. reflexivity. Qed.
+Lemma env_uid_set : env f_rfc4315_x_uid_set = Some def_rfc4315_x_uid_set. Proof. reflexivity. Qed.
+Lemma env_uid_range : env f_rfc4315_x_uid_range = Some def_rfc4315_x_uid_range. Proof. reflexivity. Qed.
+
+Lemma closes93_nodigit rest : closes93 rest -> nodigit rest.
+Proof. destruct rest as [|c r]; [intros []|]. cbn. intros ->. reflexivity. Qed.
+
+Lemma ok_pflag f w d : enc_pflag f w -> OK flag_item d w (VBytes f) flag_follow.
+Proof.
+  intros [f0 w0 Hf |]; [apply ok_flag, Hf|]. unfold flag_item. eapply ok_map; [|reflexivity].
+  apply (okref _ _ _ _ _ _ _ env_flag_perm). unfold def_rfc3501_x_flag_perm.
+  apply ok_alt_here. apply (Ok_follow _ _ _ _ _ _ _ any); [|intros; exact I].
+  eapply ok_mapres; [apply ok_tag | reflexivity].
+Qed.
+
+Lemma oksep_pflags l ws d : enc_pflags_more l ws ->
+  OkSep native_call env rk (Leaf (LTag (bs " "))) flag_item d ws l closes.
+Proof.
+  intro H. induction H as [| f w l ws Hf Hl IH].
+  - apply oksep_nil. intros rest Hr. destruct rest as [|c r]; [destruct Hr|]. cbn in Hr. subst c. apply rej_tag. reflexivity.
+  - unfold SPb. eapply (oksep_cons _ _ _ _ _ _ _ _ _ _ _ _ any flag_follow).
+    + apply ok_tag.
+    + discriminate.
+    + apply ok_pflag, Hf.
+    + exact IH.
+    + intros rest Hr. destruct Hl; cbn [app].
+      * destruct rest as [|c r]; [destruct Hr|]. cbn in Hr. subst c. right. reflexivity.
+      * left. reflexivity.
+    + intros; exact I.
+Qed.
+
+Definition paren_list (g : G) : G :=
+  Map (mk_action (PTuple [PWild; PVar "p1"; PWild]) (AVar "p1")) (Seq [(Leaf (LTag (bs "("))); g; (Leaf (LTag (bs ")")))]).
+
+Lemma ok_pflag_list v w d : enc_pflag_list v w -> OK (paren_list (SepList0 (Leaf (LTag (bs " "))) flag_item)) d w v any.
+Proof.
+  intros [| f w0 l ws Hf Hl]; unfold paren_list.
+  - eapply ok_map.
+    { apply ok_seq. regroup ([40] ++ ((@nil byte) ++ ([41] ++ []))).
+      eapply (okseq_cons _ _ _ _ _ _ _ _ _ _ any any); [apply ok_tag | | intros; exact I].
+      eapply (okseq_cons _ _ _ _ _ _ _ _ _ _ closes any).
+      - apply ok_seplist0_empty. intros rest Hr. destruct rest as [|c r]; [destruct Hr|]. cbn in Hr. subst c.
+        apply (fails_on_byte native_call env rk rank_ok_all 8). vm_compute. reflexivity.
+      - eapply (okseq_cons _ _ _ _ _ _ _ _ _ _ any any); [apply ok_tag | apply (okseq_nil _ _ _ _ any) | intros; exact I].
+      - intros rest _. reflexivity. }
+    reflexivity.
+  - eapply ok_map.
+    { apply ok_seq. regroup ([40] ++ ((w0 ++ ws) ++ ([41] ++ []))).
+      eapply (okseq_cons _ _ _ _ _ _ _ _ _ _ any any); [apply ok_tag | | intros; exact I].
+      eapply (okseq_cons _ _ _ _ _ _ _ _ _ _ closes any).
+      - eapply (ok_seplist0 _ _ _ _ _ _ _ _ _ _ flag_follow).
+        + apply ok_pflag, Hf.
+        + apply oksep_pflags, Hl.
+        + intros rest Hr. destruct Hl; cbn [app].
+          * destruct rest as [|c r]; [destruct Hr|]. cbn in Hr. subst c. right. reflexivity.
+          * left. reflexivity.
+      - eapply (okseq_cons _ _ _ _ _ _ _ _ _ _ any any); [apply ok_tag | apply (okseq_nil _ _ _ _ any) | intros; exact I].
+      - intros rest _. reflexivity. }
+    reflexivity.
+Qed.
+
+Definition charset_item : G := Map (mk_action (PVar "x") (AVar "x")) (Ref f_core_x_astring_utf8 DSame).
+
+Lemma oksep_charsets l ws d : enc_charsets_more l ws -> OkSep native_call env rk (Leaf (LTag (bs " "))) charset_item d ws l closes.
+Proof.
+  intro H. induction H as [| s w l ws Hs Hu Hl IH].
+  - apply oksep_nil. intros rest Hr. destruct rest as [|c r]; [destruct Hr|]. cbn in Hr. subst c. apply rej_tag. reflexivity.
+  - unfold SPb. eapply (oksep_cons _ _ _ _ _ _ _ _ _ _ _ _ any (stops_at cls_core_x_is_astring_char)).
+    + apply ok_tag.
+    + discriminate.
+    + unfold charset_item. eapply ok_map; [apply ok_astring_utf8; eassumption | reflexivity].
+    + exact IH.
+    + intros rest Hr. destruct Hl; cbn [app].
+      * destruct rest as [|c r]; [destruct Hr|]. cbn in Hr. subst c. reflexivity.
+      * reflexivity.
+    + intros; exact I.
+Qed.
+
+Definition uid_item_g : G :=
+  Alt [(Ref f_rfc4315_x_uid_range DSame); (Map (mk_action (PVar "x") (ACall "rfc4315::uid_set#1" [AVar "x"])) (Ref f_core_x_number DSame))].
+
+Lemma ok_uid_item v w d : enc_uid_item v w -> OK uid_item_g d w v item_follow.
+Proof.
+  intros [n w0 Hn | a b wa wb Ha Hb]; unfold uid_item_g.
+  - apply ok_alt_skip.
+    + intros rest Hr. apply (rejref _ _ _ _ _ env_uid_range). unfold def_rfc4315_x_uid_range. apply rej_map, rej_map.
+      destruct rest as [|c r]; [destruct Hr|]. destruct Hr as [Hd Hc].
+      eapply (rej_seq_after _ _ _ _ _ _ _ _ nodigit); [apply ok_number, Hn | exact Hd |]. apply rejseq_head. apply rej_tag. exact Hc.
+    + apply ok_alt_here. apply (Ok_follow _ _ _ _ _ _ _ nodigit).
+      * eapply ok_map. { apply ok_number, Hn. } reflexivity.
+      * intros r Hr. destruct r as [|c r]; [destruct Hr|]. exact (proj1 Hr).
+  - apply ok_alt_here. apply (Ok_follow _ _ _ _ _ _ _ nodigit).
+    + apply (okref _ _ _ _ _ _ _ env_uid_range). unfold def_rfc4315_x_uid_range.
+      eapply ok_map.
+      { eapply ok_map.
+        { apply ok_seq. regroup (wa ++ ([58] ++ (wb ++ []))).
+          eapply (okseq_cons _ _ _ _ _ _ _ _ _ _ nodigit nodigit); [apply ok_number, Ha | | intros rest _; reflexivity].
+          eapply (okseq_cons _ _ _ _ _ _ _ _ _ _ any nodigit); [apply ok_tag | | intros; exact I].
+          eapply (okseq_cons _ _ _ _ _ _ _ _ _ _ nodigit nodigit); [apply ok_number, Hb | apply (okseq_nil _ _ _ _ nodigit) | intros r Hr; exact Hr]. }
+        reflexivity. }
+      reflexivity.
+    + intros r Hr. destruct r as [|c r]; [destruct Hr|]. exact (proj1 Hr).
+Qed.
+
+(* a uid set is followed by SP (COPYUID's first set) or "]" *)
+Definition uid_set_follow (rest : list byte) : Prop := match rest with c :: _ => c = 32 \/ c = 93 | [] => False end.
+Lemma uid_set_follow_item rest : uid_set_follow rest -> item_follow rest.
+Proof. destruct rest as [|c r]; [intros []|]. intros [-> | ->]; split; reflexivity. Qed.
+
+Lemma oksep_uids l ws d : enc_uid_more l ws -> OkSep native_call env rk (Leaf (LTag (bs ","))) uid_item_g d ws l uid_set_follow.
+Proof.
+  intro H. induction H as [| v l w ws Hv Hl IH].
+  - apply oksep_nil. intros rest Hr. destruct rest as [|c r]; [destruct Hr|]. apply rej_tag. destruct Hr as [-> | ->]; reflexivity.
+  - eapply (oksep_cons _ _ _ _ _ _ _ _ _ _ _ _ any item_follow).
+    + apply ok_tag.
+    + discriminate.
+    + apply ok_uid_item, Hv.
+    + exact IH.
+    + intros rest Hr. destruct Hl; cbn [app]; [apply uid_set_follow_item, Hr | split; reflexivity].
+    + intros; exact I.
+Qed.
+
+Lemma ok_uid_set s w d : enc_uid_set s w -> OK (Ref f_rfc4315_x_uid_set DSame) d w s uid_set_follow.
+Proof.
+  intros [v w0 l ws Hv Hl]. apply (okref _ _ _ _ _ _ _ env_uid_set). unfold def_rfc4315_x_uid_set. fold uid_item_g.
+  eapply (ok_seplist1 _ _ _ _ _ _ _ _ _ _ item_follow).
+  - apply ok_uid_item, Hv.
+  - apply oksep_uids, Hl.
+  - intros rest Hr. destruct Hl; cbn [app]; [apply uid_set_follow_item, Hr | split; reflexivity].
+Qed.
+
+Lemma closes93_uid_set_follow rest : closes93 rest -> uid_set_follow rest.
+Proof. destruct rest as [|c r]; [intros []|]. cbn. intros ->. right. reflexivity. Qed.
+
+Lemma ok_code_alt c w d : enc_code c w -> OK (Alt code_alts) d w c closes93.
+Proof.
+  intro H. destruct H as [c0 w0 H0 | w Hk | w Hk | w Hk | k n w Hk Hn | k n w Hk Hn | k v w Hk Hv | k Hk | k s w l ws Hk Hs Hu Hl
+                          | k n wn s ws Hk Hn Hs | k l w Hk Hl Hin | k n wn s1 ws1 s2 ws2 Hk Hn H1 H2].
+  - apply (Ok_follow _ _ _ _ _ _ _ nodigit); [apply ok_code_alt_simple, H0 | exact closes93_nodigit].
+  - unfold kw in Hk. unfold code_alts. cbn [def_rfc3501_x_resp_text_code].
+    replace w with (w ++ []) by apply app_nil_r. do 14 skip "UIDNOTSTICKY"%string Hk. apply ok_alt_here. rewrite app_nil_r.
+    apply (Ok_follow _ _ _ _ _ _ _ any); [|intros; exact I].
+    apply (okref _ _ _ _ _ _ _ env_code_uns). unfold def_rfc4315_x_resp_text_code_uid_not_sticky. eapply ok_map. { apply ok_tag_nc, Hk. } reflexivity.
+  - unfold kw in Hk. unfold code_alts. cbn [def_rfc3501_x_resp_text_code].
+    replace w with (w ++ []) by apply app_nil_r. do 17 skip "METADATA TOOMANY"%string Hk. apply ok_alt_here. rewrite app_nil_r.
+    apply (Ok_follow _ _ _ _ _ _ _ any); [|intros; exact I].
+    apply (okref _ _ _ _ _ _ _ env_code_mtm). unfold def_rfc5464_x_resp_text_code_metadata_too_many. eapply ok_map. { apply ok_tag_nc, Hk. } reflexivity.
+  - unfold kw in Hk. unfold code_alts. cbn [def_rfc3501_x_resp_text_code].
+    replace w with (w ++ []) by apply app_nil_r. do 18 skip "METADATA NOPRIVATE"%string Hk. apply ok_alt_here. rewrite app_nil_r.
+    apply (Ok_follow _ _ _ _ _ _ _ any); [|intros; exact I].
+    apply (okref _ _ _ _ _ _ _ env_code_mnp). unfold def_rfc5464_x_resp_text_code_metadata_no_private. eapply ok_map. { apply ok_tag_nc, Hk. } reflexivity.
+  - unfold kw in Hk. unfold code_alts. cbn [def_rfc3501_x_resp_text_code].
+    do 15 skip "METADATA LONGENTRIES "%string Hk. apply ok_alt_here. apply (Ok_follow _ _ _ _ _ _ _ nodigit); [|exact closes93_nodigit].
+    apply (okref _ _ _ _ _ _ _ env_code_mle). unfold def_rfc5464_x_resp_text_code_metadata_long_entries.
+    eapply ok_map.
+    { apply ok_seq. regroup (k ++ (w ++ [])).
+      eapply (okseq_cons _ _ _ _ _ _ _ _ _ _ any nodigit); [apply ok_tag_nc, Hk | | intros; exact I].
+      eapply (okseq_cons _ _ _ _ _ _ _ _ _ _ nodigit nodigit); [apply ok_number_64, Hn | apply (okseq_nil _ _ _ _ nodigit) | intros r Hr; exact Hr]. }
+    reflexivity.
+  - unfold kw in Hk. unfold code_alts. cbn [def_rfc3501_x_resp_text_code].
+    do 16 skip "METADATA MAXSIZE "%string Hk. apply ok_alt_here. apply (Ok_follow _ _ _ _ _ _ _ nodigit); [|exact closes93_nodigit].
+    apply (okref _ _ _ _ _ _ _ env_code_mms). unfold def_rfc5464_x_resp_text_code_metadata_max_size.
+    eapply ok_map.
+    { apply ok_seq. regroup (k ++ (w ++ [])).
+      eapply (okseq_cons _ _ _ _ _ _ _ _ _ _ any nodigit); [apply ok_tag_nc, Hk | | intros; exact I].
+      eapply (okseq_cons _ _ _ _ _ _ _ _ _ _ nodigit nodigit); [apply ok_number_64, Hn | apply (okseq_nil _ _ _ _ nodigit) | intros r Hr; exact Hr]. }
+    reflexivity.
+  - (* PERMANENTFLAGS *)
+    unfold kw in Hk. unfold code_alts. cbn [def_rfc3501_x_resp_text_code].
+    do 4 skip "PERMANENTFLAGS "%string Hk. apply ok_alt_here. apply (Ok_follow _ _ _ _ _ _ _ any); [|intros; exact I].
+    apply (okref _ _ _ _ _ _ _ env_code_pf). unfold def_rfc3501_x_resp_text_code_permanent_flags. fold flag_item.
+    eapply ok_map.
+    { apply (ok_kw2 _ _ _ _ _ _ any Hk). apply ok_pflag_list, Hv. }
+    reflexivity.
+  - (* BADCHARSET alone *)
+    unfold kw in Hk. unfold code_alts. cbn [def_rfc3501_x_resp_text_code].
+    replace k with (k ++ []) by apply app_nil_r. do 1 skip "BADCHARSET"%string Hk. apply ok_alt_here. rewrite app_nil_r.
+    apply (okref _ _ _ _ _ _ _ env_code_bc). unfold def_rfc3501_x_resp_text_code_badcharset.
+    eapply ok_map.
+    { eapply ok_map.
+      { apply ok_seq. eapply (okseq_cons' _ _ _ _ k [] _ _ any closes93); [symmetry; apply app_nil_r | apply ok_tag_nc, Hk | | intros; exact I].
+        eapply (okseq_cons' _ _ _ _ [] [] _ _ closes93 closes93); [reflexivity | | apply (okseq_nil _ _ _ _ closes93) | intros r Hr; exact Hr].
+        apply ok_opt_none. intros rest Hr. destruct rest as [|c r]; [destruct Hr|]. cbn in Hr. subst c.
+        apply rej_map, rej_seq_head, rej_tag. reflexivity. }
+      reflexivity. }
+    reflexivity.
+  - (* BADCHARSET (charsets) *)
+    unfold kw in Hk. unfold code_alts. cbn [def_rfc3501_x_resp_text_code].
+    do 1 skip "BADCHARSET"%string Hk. apply ok_alt_here. apply (Ok_follow _ _ _ _ _ _ _ any); [|intros; exact I].
+    apply (okref _ _ _ _ _ _ _ env_code_bc). unfold def_rfc3501_x_resp_text_code_badcharset. fold charset_item.
+    eapply ok_map.
+    { eapply ok_map.
+      { apply ok_seq. unfold SPb. regroup (k ++ (([32] ++ [40] ++ w ++ ws ++ [41]) ++ [])).
+        eapply (okseq_cons _ _ _ _ _ _ _ _ _ _ any any); [apply ok_tag_nc, Hk | | intros; exact I].
+        eapply (okseq_cons _ _ _ _ _ _ _ _ _ _ any any); [| apply (okseq_nil _ _ _ _ any) | intros; exact I].
+        apply ok_opt_some. eapply ok_map.
+        { apply ok_seq. regroup ([32] ++ (([40] ++ w ++ ws ++ [41]) ++ [])).
+          eapply (okseq_cons _ _ _ _ _ _ _ _ _ _ any any); [apply ok_tag | | intros; exact I].
+          eapply (okseq_cons _ _ _ _ _ _ _ _ _ _ any any); [| apply (okseq_nil _ _ _ _ any) | intros; exact I].
+          eapply ok_map.
+          { apply ok_seq. regroup ([40] ++ ((w ++ ws) ++ ([41] ++ []))).
+            eapply (okseq_cons _ _ _ _ _ _ _ _ _ _ any any); [apply ok_tag | | intros; exact I].
+            eapply (okseq_cons _ _ _ _ _ _ _ _ _ _ closes any).
+            - eapply (ok_seplist1 _ _ _ _ _ _ _ _ _ _ (stops_at cls_core_x_is_astring_char)).
+              + unfold charset_item. eapply ok_map; [apply ok_astring_utf8; eassumption | reflexivity].
+              + apply oksep_charsets, Hl.
+              + intros rest Hr. destruct Hl; cbn [app].
+                * destruct rest as [|c r]; [destruct Hr|]. cbn in Hr. subst c. reflexivity.
+                * reflexivity.
+            - eapply (okseq_cons _ _ _ _ _ _ _ _ _ _ any any); [apply ok_tag | apply (okseq_nil _ _ _ _ any) | intros; exact I].
+            - intros rest _. reflexivity. }
+          reflexivity. }
+        reflexivity. }
+      reflexivity. }
+    reflexivity.
+  - (* APPENDUID *)
+    unfold kw in Hk. unfold code_alts. cbn [def_rfc3501_x_resp_text_code].
+    do 12 skip "APPENDUID "%string Hk. apply ok_alt_here. apply (Ok_follow _ _ _ _ _ _ _ uid_set_follow); [|exact closes93_uid_set_follow].
+    apply (okref _ _ _ _ _ _ _ env_code_au). unfold def_rfc4315_x_resp_text_code_append_uid.
+    eapply ok_map.
+    { eapply ok_map.
+      { apply ok_seq. unfold SPb. regroup (k ++ ((wn ++ [32] ++ ws) ++ [])).
+        eapply (okseq_cons _ _ _ _ _ _ _ _ _ _ any uid_set_follow); [apply ok_tag_nc, Hk | | intros; exact I].
+        eapply (okseq_cons _ _ _ _ _ _ _ _ _ _ uid_set_follow uid_set_follow); [| apply (okseq_nil _ _ _ _ uid_set_follow) | intros r Hr; exact Hr].
+        apply ok_seq. regroup (wn ++ ([32] ++ (ws ++ []))).
+        eapply (okseq_cons _ _ _ _ _ _ _ _ _ _ nodigit uid_set_follow); [apply ok_number, Hn | | intros rest _; reflexivity].
+        eapply (okseq_cons _ _ _ _ _ _ _ _ _ _ any uid_set_follow); [apply ok_tag | | intros; exact I].
+        eapply (okseq_cons _ _ _ _ _ _ _ _ _ _ uid_set_follow uid_set_follow); [apply ok_uid_set, Hs | apply (okseq_nil _ _ _ _ uid_set_follow) | intros r Hr; exact Hr]. }
+      reflexivity. }
+    reflexivity.
+  - (* CAPABILITY as a response code *)
+    unfold kw in Hk. unfold code_alts. cbn [def_rfc3501_x_resp_text_code].
+    do 2 skip "CAPABILITY"%string Hk. apply ok_alt_here.
+    apply (okref _ _ _ _ _ _ _ env_code_cap). unfold def_rfc3501_x_resp_text_code_capability.
+    eapply ok_map; [|reflexivity].
+    apply (okref _ _ _ _ _ _ _ env_capability_data). unfold def_rfc3501_x_capability_data. fold cap_item.
+    eapply ok_mapres.
+    { eapply ok_map.
+      { apply ok_seq. regroup (k ++ (w ++ [])).
+        eapply (okseq_cons _ _ _ _ _ _ _ _ _ _ any closes93); [apply ok_tag_nc, Hk | | intros; exact I].
+        eapply (okseq_cons _ _ _ _ _ _ _ _ _ _ closes93 closes93); [| apply (okseq_nil _ _ _ _ closes93) | intros r Hr; exact Hr].
+        apply ok_many0. apply okmany_caps_gen; [| | exact Hl].
+        - intros rest Hr. destruct rest as [|c r]; [destruct Hr|]. cbn in Hr. subst c. unfold cap_item. apply rej_map, rej_seq_head, rej_tag. reflexivity.
+        - intros rest Hr. destruct rest as [|c r]; [destruct Hr|]. cbn in Hr. subst c. reflexivity. }
+      reflexivity. }
+    unfold act. cbn [a_pat a_body bind eval eval_list of_lres lookup String.eqb Ascii.eqb Bool.eqb].
+    unfold native_call. cbn [String.eqb Ascii.eqb Bool.eqb]. rewrite (contains_rev1_early l Hin). reflexivity.
+  - (* COPYUID *)
+    unfold kw in Hk. unfold code_alts. cbn [def_rfc3501_x_resp_text_code].
+    do 13 skip "COPYUID "%string Hk. apply ok_alt_here. apply (Ok_follow _ _ _ _ _ _ _ uid_set_follow); [|exact closes93_uid_set_follow].
+    apply (okref _ _ _ _ _ _ _ env_code_cu). unfold def_rfc4315_x_resp_text_code_copy_uid.
+    eapply ok_map.
+    { eapply ok_map.
+      { apply ok_seq. unfold SPb. regroup (k ++ ((wn ++ [32] ++ ws1 ++ [32] ++ ws2) ++ [])).
+        eapply (okseq_cons _ _ _ _ _ _ _ _ _ _ any uid_set_follow); [apply ok_tag_nc, Hk | | intros; exact I].
+        eapply (okseq_cons _ _ _ _ _ _ _ _ _ _ uid_set_follow uid_set_follow); [| apply (okseq_nil _ _ _ _ uid_set_follow) | intros r Hr; exact Hr].
+        apply ok_seq. regroup (wn ++ ([32] ++ (ws1 ++ ([32] ++ (ws2 ++ []))))).
+        eapply (okseq_cons _ _ _ _ _ _ _ _ _ _ nodigit uid_set_follow); [apply ok_number, Hn | | intros rest _; reflexivity].
+        eapply (okseq_cons _ _ _ _ _ _ _ _ _ _ any uid_set_follow); [apply ok_tag | | intros; exact I].
+        eapply (okseq_cons _ _ _ _ _ _ _ _ _ _ uid_set_follow uid_set_follow); [apply ok_uid_set, H1 | | intros rest _; left; reflexivity].
+        eapply (okseq_cons _ _ _ _ _ _ _ _ _ _ any uid_set_follow); [apply ok_tag | | intros; exact I].
+        eapply (okseq_cons _ _ _ _ _ _ _ _ _ _ uid_set_follow uid_set_follow); [apply ok_uid_set, H2 | apply (okseq_nil _ _ _ _ uid_set_follow) | intros r Hr; exact Hr]. }
+      reflexivity. }
+    reflexivity.
+Qed.
+
 Lemma ok_resp_text_code c w d : enc_code c w -> OK (Ref f_rfc3501_x_resp_text_code DSame) d ([91] ++ w ++ [93]) c any.
 Proof.
   intro H. apply (okref _ _ _ _ _ _ _ env_resp_text_code).
@@ -1301,7 +1712,7 @@ Proof.
   rewrite Hshape. eapply ok_map.
   { apply ok_seq. regroup ([91] ++ (w ++ ([93] ++ []))).
     eapply (okseq_cons _ _ _ _ _ _ _ _ _ _ any any); [apply ok_tag | | intros; exact I].
-    eapply (okseq_cons _ _ _ _ _ _ _ _ _ _ nodigit any); [apply ok_code_alt, H | | intros rest _; reflexivity].
+    eapply (okseq_cons _ _ _ _ _ _ _ _ _ _ closes93 any); [apply ok_code_alt, H | | intros rest _; reflexivity].
     eapply (okseq_cons _ _ _ _ _ _ _ _ _ _ any any); [apply ok_tag | apply (okseq_nil _ _ _ _ any) | intros; exact I]. }
   reflexivity.
 Qed.
@@ -1729,22 +2140,6 @@ Proof.
   reflexivity.
 Qed.
 
-Definition kw_char (b : byte) : bool := ((65 <=? b) && (b <=? 90)) || ((97 <=? b) && (b <=? 122)) || ((48 <=? b) && (b <=? 57)) || (b =? 61).
-
-Lemma kw_chars_ok K w : forallb kw_char K = true -> same_nocase K w = true ->
-  forallb cls_core_x_is_atom_char w = true /\ forallb (fun b => b <=? 127) w = true.
-Proof.
-  revert w; induction K as [|a K IH]; intros [|b w] HK H; try discriminate; [split; reflexivity|].
-  cbn [forallb] in HK. apply andb_true_iff in HK. destruct HK as [Ha HK].
-  cbn [same_nocase] in H. apply andb_true_iff in H. destruct H as [Hab H].
-  destruct (IH w HK H) as [I1 I2]. cbn [forallb]. rewrite I1, I2.
-  assert (Hlt : a < 256).
-  { unfold kw_char in Ha. repeat (apply orb_true_iff in Ha; destruct Ha as [Ha | Ha]);
-      try (apply andb_true_iff in Ha; destruct Ha as [_ Ha]; apply N.leb_le in Ha; lia). apply N.eqb_eq in Ha. lia. }
-  pose proof (sweep (fun a => implb (kw_char a) (forallb (fun b => cls_core_x_is_atom_char b && (b <=? 127)) (variants a))) ltac:(vm_compute; reflexivity) a Hlt) as Hx.
-  cbv beta in Hx. rewrite Ha in Hx. cbn [implb] in Hx. rewrite forallb_forall in Hx.
-  specialize (Hx b (lower_variants a b Hab)). apply andb_true_iff in Hx. destruct Hx as [X1 X2]. rewrite X1, X2. split; reflexivity.
-Qed.
 
 (* ---------------------------------------------------------------- LIST / LSUB *)
 Lemma env_md_list : env f_rfc3501_x_mailbox_data_list = Some def_rfc3501_x_mailbox_data_list. Proof. reflexivity. Qed.
@@ -1965,109 +2360,48 @@ Proof.
     reflexivity.
 Qed.
 
+(* ---------------------------------------------------------------- FLAGS / X-GM-LABELS / X-GM-MSGID as mailbox data *)
+Lemma env_md_flags : env f_rfc3501_x_mailbox_data_flags = Some def_rfc3501_x_mailbox_data_flags. Proof. reflexivity. Qed.
+Lemma env_md_labels : env f_gmail_x_mailbox_data_gmail_labels = Some def_gmail_x_mailbox_data_gmail_labels. Proof. reflexivity. Qed.
+Lemma env_md_msgid : env f_gmail_x_mailbox_data_gmail_msgid = Some def_gmail_x_mailbox_data_gmail_msgid. Proof. reflexivity. Qed.
+
+Lemma before_trailer_nodigit rest : before_trailer rest -> nodigit rest.
+Proof. destruct rest as [|c r]; [intros []|]. intros [-> | ->]; reflexivity. Qed.
+
+Lemma ok_mailbox_misc v body d : enc_mailbox_misc v body -> OK (Alt rd_alts) d body v before_trailer.
+Proof.
+  intros [k v0 w Hk Hv | k v0 w Hk Hv | k n w Hk Hn]; unfold kw in Hk; unfold rd_alts; cbn [def_rfc3501_x_response_data].
+  - apply (Ok_follow _ _ _ _ _ _ _ any); [|intros; exact I].
+    apply (skip_kw _ _ (bs "FLAGS ") _ _ _ _ _ Hk); [vm_compute; reflexivity|].
+    apply ok_alt_here. eapply ok_map; [|reflexivity].
+    apply (okref _ _ _ _ _ _ _ env_mailbox_data). unfold def_rfc3501_x_mailbox_data.
+    apply ok_alt_here. apply (okref _ _ _ _ _ _ _ env_md_flags). unfold def_rfc3501_x_mailbox_data_flags.
+    eapply ok_map; [|reflexivity]. apply (ok_kw2 _ _ _ _ _ _ any Hk). apply ok_flag_list, Hv.
+  - apply (Ok_follow _ _ _ _ _ _ _ any); [|intros; exact I].
+    apply (skip_kw _ _ (bs "X-GM-LABELS ") _ _ _ _ _ Hk); [vm_compute; reflexivity|].
+    apply ok_alt_here. eapply ok_map; [|reflexivity].
+    apply (okref _ _ _ _ _ _ _ env_mailbox_data). unfold def_rfc3501_x_mailbox_data.
+    do 7 (apply (skip_kw _ _ (bs "X-GM-LABELS ") _ _ _ _ _ Hk); [vm_compute; reflexivity|]).
+    apply ok_alt_here. apply (okref _ _ _ _ _ _ _ env_md_labels). unfold def_gmail_x_mailbox_data_gmail_labels.
+    eapply ok_map; [apply ok_label_list; eassumption | reflexivity].
+  - apply (Ok_follow _ _ _ _ _ _ _ nodigit); [|exact before_trailer_nodigit].
+    apply (skip_kw _ _ (bs "X-GM-MSGID ") _ _ _ _ _ Hk); [vm_compute; reflexivity|].
+    apply ok_alt_here. eapply ok_map; [|reflexivity].
+    apply (okref _ _ _ _ _ _ _ env_mailbox_data). unfold def_rfc3501_x_mailbox_data.
+    do 8 (apply (skip_kw _ _ (bs "X-GM-MSGID ") _ _ _ _ _ Hk); [vm_compute; reflexivity|]).
+    apply ok_alt_here. apply (okref _ _ _ _ _ _ _ env_md_msgid). unfold def_gmail_x_mailbox_data_gmail_msgid.
+    eapply ok_map; [|reflexivity].
+    apply (okref _ _ _ _ _ _ _ env_gmail_msgid). unfold def_gmail_x_gmail_msgid.
+    apply (ok_kw2 _ _ _ _ _ _ nodigit Hk). apply ok_number_64, Hn.
+Qed.
+
 Theorem data_roundtrip v w : enc_data_response v w -> forall rest, parse (w ++ rest) = ROk rest v (nlen w).
 Proof.
   intros [v0 body sp Hb Hsp] rest. apply untagged_lift; [|exact Hsp]. intro d.
-  destruct Hb as [v1 b1 H | v1 b1 H | v1 b1 H | v1 b1 H]; [apply ok_untagged, H | apply ok_quota, H | apply ok_mailbox_status, H | apply ok_mailbox_list, H].
+  destruct Hb as [v1 b1 H | v1 b1 H | v1 b1 H | v1 b1 H | v1 b1 H]; [apply ok_untagged, H | apply ok_quota, H | apply ok_mailbox_status, H | apply ok_mailbox_list, H | apply ok_mailbox_misc, H].
 Qed.
 
 (* ---------------------------------------------------------------- CAPABILITY *)
-Lemma env_capability_data : env f_rfc3501_x_capability_data = Some def_rfc3501_x_capability_data. Proof. reflexivity. Qed.
-Lemma env_capability : env f_rfc3501_x_capability = Some def_rfc3501_x_capability. Proof. reflexivity. Qed.
-Lemma env_atom : env f_core_x_atom = Some def_core_x_atom. Proof. reflexivity. Qed.
-
-Lemma ok_atom_bytes a d : a <> [] -> forallb cls_core_x_is_atom_char a = true -> forallb (fun b => b <=? 127) a = true ->
-  OK (Ref f_core_x_atom DSame) d a (VBytes a) (stops_at cls_core_x_is_atom_char).
-Proof.
-  intros Hne Hc H7. apply (okref _ _ _ _ _ _ _ env_atom). unfold def_core_x_atom.
-  eapply ok_mapres. { apply ok_take_while1; assumption. } cbn. unfold native_call. cbn. rewrite (ascii_utf8 a H7). reflexivity.
-Qed.
-
-Lemma ok_cap c w d : enc_cap c w -> OK (Ref f_rfc3501_x_capability DSame) d w c (stops_at cls_core_x_is_atom_char).
-Proof.
-  intro H. apply (okref _ _ _ _ _ _ _ env_capability). unfold def_rfc3501_x_capability.
-  destruct H as [w Hk | p m Hp Hne Hm | a Hne Ha N1 N2]; unfold kw in *.
-  - destruct (kw_chars_ok (bs "IMAP4rev1") w ltac:(reflexivity) Hk) as [C1 C2].
-    eapply ok_map. { apply ok_atom_bytes; [destruct w; discriminate | exact C1 | exact C2]. }
-    cbn. unfold native_call. cbn. unfold classify_capability. rewrite (same_nocase_eq_nocase _ _ Hk). reflexivity.
-  - destruct (kw_chars_ok (bs "AUTH=") p ltac:(reflexivity) Hp) as [C1 C2].
-    assert (Hm1 : forallb cls_core_x_is_atom_char m = true) by (apply (forallb_impl rfc_ATOM_CHAR); [intros x Hx; exact (proj1 (atom_char_facts x Hx)) | exact Hm]).
-    assert (Hm2 : forallb (fun b => b <=? 127) m = true) by (apply (forallb_impl rfc_ATOM_CHAR); [intros x Hx; exact (proj1 (proj2 (proj2 (atom_char_facts x Hx)))) | exact Hm]).
-    eapply ok_map.
-    { apply ok_atom_bytes; [destruct p; discriminate | rewrite forallb_app, C1, Hm1; reflexivity |].
-      change byte with N in *. rewrite forallb_app, C2, Hm2. reflexivity. }
-    cbn. unfold native_call. cbn. unfold classify_capability.
-    (* p has exactly five bytes *)
-    change (bs "AUTH=") with [65; 85; 84; 72; 61] in Hp |- *. change (bs "IMAP4rev1") with [73; 77; 65; 80; 52; 114; 101; 118; 49].
-    destruct p as [|p1 [|p2 [|p3 [|p4 [|p5 [|p6 p']]]]]]; cbn [same_nocase] in Hp; rewrite ?andb_false_r in Hp; try discriminate Hp.
-    pose proof Hp as Hp0. apply andb_true_iff in Hp. destruct Hp as [Hp1 _].
-    assert (E1 : eq_nocase ([p1; p2; p3; p4; p5] ++ m) [73; 77; 65; 80; 52; 114; 101; 118; 49] = false).
-    { unfold eq_nocase. cbn [app list_eqb]. unfold eq_nocase1 in Hp1. apply N.eqb_eq in Hp1.
-      replace (lower p1 =? lower 73) with false; [reflexivity|]. symmetry. apply N.eqb_neq. rewrite <- Hp1. discriminate. }
-    rewrite E1.
-    assert (E2 : Nat.ltb 5 (length ([p1; p2; p3; p4; p5] ++ m)) = true).
-    { apply Nat.ltb_lt. rewrite app_length. cbn [length]. destruct m; [contradiction | cbn [length]; lia]. }
-    rewrite E2. cbn [app firstn skipn andb].
-    rewrite (same_nocase_eq_nocase [65; 85; 84; 72; 61] [p1; p2; p3; p4; p5] Hp0). reflexivity.
-  - eapply ok_map.
-    { apply ok_atom_bytes; [exact Hne | |].
-      - apply (forallb_impl rfc_ATOM_CHAR); [intros x Hx; exact (proj1 (atom_char_facts x Hx)) | exact Ha].
-      - apply (forallb_impl rfc_ATOM_CHAR); [intros x Hx; exact (proj1 (proj2 (proj2 (atom_char_facts x Hx)))) | exact Ha]. }
-    cbn. unfold native_call. cbn. unfold classify_capability. rewrite N1, N2. reflexivity.
-Qed.
-
-Definition cap_item : G := Map proj12 (Seq [Leaf (LTag (bs " ")); Ref f_rfc3501_x_capability DSame]).
-Definition caps_end (rest : list byte) : Prop :=
-  match rest with
-  | 13 :: _ => True
-  | 32 :: c :: _ => cls_core_x_is_atom_char c = false
-  | _ => False
-  end.
-
-Lemma byte_13_32 c0 (P : Prop) : (c0 = 13 -> P) -> (c0 = 32 -> P) -> (c0 <> 13 -> c0 <> 32 -> P) -> P.
-Proof. intros A B C. destruct (N.eq_dec c0 13); [auto|]. destruct (N.eq_dec c0 32); auto. Qed.
-
-Lemma caps_end_inv rest : caps_end rest ->
-  (exists r, rest = 13 :: r) \/ (exists c r, rest = 32 :: c :: r /\ cls_core_x_is_atom_char c = false).
-Proof.
-  destruct rest as [|c0 r]; [intros []|]. intro H.
-  apply (byte_13_32 c0); intros.
-  - subst. left. eexists. reflexivity.
-  - subst. destruct r as [|c r']; [destruct H|]. right. exists c, r'. split; [reflexivity | exact H].
-  - exfalso. cbn in H. destruct c0 as [|p]; [exact H|].
-    repeat (destruct p as [p|p|]; try exact H; try (apply H0; reflexivity); try (apply H1; reflexivity)).
-Qed.
-
-Lemma rej_atom_nonatom c i d : cls_core_x_is_atom_char c = false -> REJ (Ref f_rfc3501_x_capability DSame) d (c :: i).
-Proof.
-  intro H. apply (rejref _ _ _ _ _ env_capability). unfold def_rfc3501_x_capability. apply rej_map.
-  apply (rejref _ _ _ _ _ env_atom). unfold def_core_x_atom. apply rej_mapres, rej_take_while1. exact H.
-Qed.
-
-Lemma rej_cap_item rest d : caps_end rest -> REJ cap_item d rest.
-Proof.
-  intro H. unfold cap_item. apply rej_map. destruct (caps_end_inv rest H) as [(r & ->) | (c & r & -> & Hc)].
-  - apply rej_seq_head, rej_tag. reflexivity.
-  - change (32 :: c :: r) with ([32] ++ (c :: r)).
-    eapply (rej_seq_after _ _ _ _ _ _ _ _ any); [apply ok_tag | exact I |]. apply rejseq_head. apply rej_atom_nonatom, Hc.
-Qed.
-
-Lemma okmany_caps l ws d : enc_caps l ws -> OkMany native_call env rk cap_item d ws l caps_end.
-Proof.
-  intro H. induction H as [| c w l ws Hc Hl IH].
-  - apply okmany_nil. intros rest Hr. apply rej_cap_item, Hr.
-  - unfold SPb. rewrite app_assoc. eapply (okmany_cons _ _ _ _ _ _ _ _ _ (stops_at cls_core_x_is_atom_char)).
-    + unfold cap_item. eapply ok_map.
-      { apply ok_seq. regroup ([32] ++ (w ++ [])).
-        eapply (okseq_cons _ _ _ _ _ _ _ _ _ _ any (stops_at cls_core_x_is_atom_char)); [apply ok_tag | | intros; exact I].
-        eapply (okseq_cons _ _ _ _ _ _ _ _ _ _ (stops_at cls_core_x_is_atom_char) (stops_at cls_core_x_is_atom_char)); [apply ok_cap, Hc | apply (okseq_nil _ _ _ _ (stops_at cls_core_x_is_atom_char)) | intros r Hr; exact Hr]. }
-      reflexivity.
-    + discriminate.
-    + exact IH.
-    + intros rest Hr. destruct Hl; cbn [app].
-      * destruct (caps_end_inv rest Hr) as [(r & ->) | (c0 & r & -> & _)]; reflexivity.
-      * reflexivity.
-Qed.
 
 Lemma contains_rev1 l : In (VCon "Capability::Imap4rev1" []) l -> contains_imap4rev1 (VList l) = true.
 Proof.
@@ -2583,11 +2917,340 @@ Proof.
     intro r. exists sp, (10 :: r). split; [exact Hsp | reflexivity].
 Qed.
 
+(* ---------------------------------------------------------------- ID *)
+Lemma env_resp_id : env f_rfc2971_x_resp_id = Some def_rfc2971_x_resp_id. Proof. reflexivity. Qed.
+Lemma env_id_param_list : env f_rfc2971_x_id_param_list = Some def_rfc2971_x_id_param_list. Proof. reflexivity. Qed.
+Lemma env_id_not_nil : env f_rfc2971_x_id_param_list_not_nil = Some def_rfc2971_x_id_param_list_not_nil. Proof. reflexivity. Qed.
+Lemma env_id_param : env f_rfc2971_x_id_param = Some def_rfc2971_x_id_param. Proof. reflexivity. Qed.
+
+Definition field_val (f : field) : val :=
+  VTuple [VBytes (fst f); match snd f with None => VNone | Some v => VSome (VBytes v) end].
+
+Lemma ok_id_param f w d : enc_id_field f w -> OK (Ref f_rfc2971_x_id_param DSame) d w (field_val f) any.
+Proof.
+  intro H. apply (okref _ _ _ _ _ _ _ env_id_param). unfold def_rfc2971_x_id_param.
+  destruct H as [k wk s w0 Hk Hu Hs Hn | k wk s v wv Hk Hu Hs Hv Huv]; unfold field_val; cbn [fst snd].
+  - destruct (enc_nil_head w0 Hn) as (c & r & E & Hc).
+    eapply ok_map.
+    { apply ok_seq. regroup (wk ++ (s ++ (w0 ++ []))).
+      eapply (okseq_cons _ _ _ _ _ _ _ _ _ _ any any); [apply ok_string_utf8; eassumption | | intros; exact I].
+      eapply (okseq_cons _ _ _ _ _ _ _ _ _ _ (stops_at nom_is_space) any); [apply ok_ws1, Hs | |].
+      - eapply (okseq_cons _ _ _ _ _ _ _ _ _ _ any any); [apply ok_nstring_utf8, nsu_nil, Hn | apply (okseq_nil _ _ _ _ any) | intros; exact I].
+      - intros rest _. rewrite E. cbn [app]. destruct Hc as [-> | ->]; reflexivity. }
+    reflexivity.
+  - destruct (enc_string_head v wv Hv) as (c & r & E & Hc).
+    eapply ok_map.
+    { apply ok_seq. regroup (wk ++ (s ++ (wv ++ []))).
+      eapply (okseq_cons _ _ _ _ _ _ _ _ _ _ any any); [apply ok_string_utf8; eassumption | | intros; exact I].
+      eapply (okseq_cons _ _ _ _ _ _ _ _ _ _ (stops_at nom_is_space) any); [apply ok_ws1, Hs | |].
+      - eapply (okseq_cons _ _ _ _ _ _ _ _ _ _ any any); [apply ok_nstring_utf8, nsu_some; eassumption | apply (okseq_nil _ _ _ _ any) | intros; exact I].
+      - intros rest _. rewrite E. cbn [app]. destruct Hc as [-> | ->]; reflexivity. }
+    reflexivity.
+Qed.
+
+Lemma enc_id_field_head f w : enc_id_field f w -> exists c r, w = c :: r /\ nom_is_space c = false.
+Proof.
+  intros [k wk s w0 Hk _ _ _ | k wk s v wv Hk _ _ _ _]; destruct (enc_string_head k wk Hk) as (c & r & -> & [-> | ->]);
+    eexists _, _; (split; [reflexivity|]); reflexivity.
+Qed.
+
+Definition id_more_item : G := Seq [(Leaf (LTakeWhile1 nom_is_space)); (Ref f_rfc2971_x_id_param DSame)].
+(* what follows the fields: optional blanks, then ")" *)
+Definition id_end (rest : list byte) : Prop := exists s0 r, forallb nom_is_space s0 = true /\ rest = s0 ++ 41 :: r.
+
+Lemma rej_id_param_close d r : REJ (Ref f_rfc2971_x_id_param DSame) d (41 :: r).
+Proof. apply (fails_on_byte native_call env rk rank_ok_all 8). vm_compute. reflexivity. Qed.
+
+Lemma rej_id_more_item rest d : id_end rest -> REJ id_more_item d rest.
+Proof.
+  intros (s0 & r & H0 & ->). unfold id_more_item. destruct s0 as [|c s0'].
+  - cbn [app]. apply rej_seq_head, rej_take_while1. reflexivity.
+  - eapply (rej_seq_after _ _ _ _ _ _ _ _ (stops_at nom_is_space)).
+    + apply ok_take_while1; [exact H0 | discriminate].
+    + reflexivity.
+    + apply rejseq_head. apply rej_id_param_close.
+Qed.
+
+Definition snd_of (t : val) : val := match t with VTuple [_; p] => p | _ => VUnit end.
+
+Lemma okmany_id_fields l ws d : enc_id_fields_more l ws ->
+  exists vs, OkMany native_call env rk id_more_item d ws vs id_end /\ map snd_of vs = map field_val l.
+Proof.
+  intro H. induction H as [| s f w l ws Hs Hf Hl [vs [IH Hmap]]].
+  - exists []. split; [|reflexivity]. apply okmany_nil. intros rest Hr. apply rej_id_more_item, Hr.
+  - exists (VTuple [VBytes s; field_val f] :: vs). split; [|cbn [map snd_of]; rewrite Hmap; reflexivity].
+    rewrite app_assoc. eapply (okmany_cons _ _ _ _ _ _ _ _ _ any).
+    + unfold id_more_item. apply ok_seq. regroup (s ++ (w ++ [])).
+      eapply (okseq_cons _ _ _ _ _ _ _ _ _ _ (stops_at nom_is_space) any); [apply ok_ws1, Hs | |].
+      * eapply (okseq_cons _ _ _ _ _ _ _ _ _ _ any any); [apply ok_id_param, Hf | apply (okseq_nil _ _ _ _ any) | intros; exact I].
+      * intros rest _. destruct (enc_id_field_head f w Hf) as (c & r & -> & Hc). cbn [app]. exact Hc.
+    + destruct Hs as [s' Hne _]. destruct s'; [contradiction | discriminate].
+    + exact IH.
+    + intros; exact I.
+Qed.
+
+(* the parser's collection of the fields is the fold that IdMap characterises *)
+Lemma id_params_fold : forall (fs : list field) (m : amap),
+  fold_left (fun m p => match p with
+                        | VTuple [VBytes k; VSome (VBytes v)] => hm_insert k v m
+                        | _ => m
+                        end) (map field_val fs) m = fold_left ins_field fs m.
+Proof.
+  induction fs as [|[k [v|]] fs IH]; intro m; cbn [map fold_left field_val fst snd ins_field]; [reflexivity | apply IH | apply IH].
+Qed.
+
+Lemma id_params_value f l vs : map snd_of vs = map field_val l ->
+  id_params (field_val f) (VList vs) = id_map_val (fold_left ins_field (f :: l) []).
+Proof.
+  intro Hmap. unfold id_params, id_map_val. f_equal. f_equal.
+  change (map (fun t => match t with VTuple [_; p] => p | _ => VUnit end) vs) with (map snd_of vs). rewrite Hmap.
+  change (field_val f :: map field_val l) with (map field_val (f :: l)). apply id_params_fold.
+Qed.
+
+Definition close_g : G := Map proj12 (Seq [(Leaf (LTakeWhile nom_is_space)); (Leaf (LTag (bs ")")))]).
+
+Lemma ok_id v body d : enc_id v body -> OK (Alt rd_alts) d body v any.
+Proof.
+  intros [k s w Hk Hs Hn | k s f wf l wl s0 m Hk Hs Hf Hl H0 Hden]; unfold kw in Hk; unfold rd_alts; cbn [def_rfc3501_x_response_data].
+  - do 11 (apply (skip_kw _ _ (bs "ID") _ _ _ _ _ Hk); [vm_compute; reflexivity|]).
+    apply ok_alt_here. apply (okref _ _ _ _ _ _ _ env_resp_id). unfold def_rfc2971_x_resp_id.
+    destruct (enc_nil_head w Hn) as (c & r & E & Hc).
+    eapply ok_map.
+    { eapply ok_map.
+      { apply ok_seq. regroup (k ++ (s ++ (w ++ []))).
+        eapply (okseq_cons _ _ _ _ _ _ _ _ _ _ any any); [apply ok_tag_nc, Hk | | intros; exact I].
+        eapply (okseq_cons _ _ _ _ _ _ _ _ _ _ (stops_at nom_is_space) any); [apply ok_ws1, Hs | |].
+        - eapply (okseq_cons _ _ _ _ _ _ _ _ _ _ any any); [| apply (okseq_nil _ _ _ _ any) | intros; exact I].
+          apply (okref _ _ _ _ _ _ _ env_id_param_list). unfold def_rfc2971_x_id_param_list.
+          apply ok_alt_skip.
+          { intros rest _. rewrite E. cbn [app]. apply rej_map. apply (rejref _ _ _ _ _ env_id_not_nil). unfold def_rfc2971_x_id_param_list_not_nil.
+            apply rej_map, rej_seq_head, rej_tag. destruct Hc as [-> | ->]; reflexivity. }
+          apply ok_alt_here. eapply ok_map; [apply ok_nil, Hn | reflexivity].
+        - intros rest _. rewrite E. cbn [app]. destruct Hc as [-> | ->]; reflexivity. }
+      reflexivity. }
+    reflexivity.
+  - do 11 (apply (skip_kw _ _ (bs "ID") _ _ _ _ _ Hk); [vm_compute; reflexivity|]).
+    apply ok_alt_here. apply (okref _ _ _ _ _ _ _ env_resp_id). unfold def_rfc2971_x_resp_id.
+    destruct (okmany_id_fields l wl d Hl) as (vs & Hmany & Hmap).
+    assert (Hm : m = fold_left ins_field (f :: l) []) by (apply (denotes_unique (f :: l)); [exact Hden | apply fold_ins_is_the_denoted_map]).
+    eapply ok_map.
+    { eapply ok_map.
+      { apply ok_seq. regroup (k ++ (s ++ (([40] ++ wf ++ wl ++ s0 ++ [41]) ++ []))).
+        eapply (okseq_cons _ _ _ _ _ _ _ _ _ _ any any); [apply ok_tag_nc, Hk | | intros; exact I].
+        eapply (okseq_cons _ _ _ _ _ _ _ _ _ _ (stops_at nom_is_space) any); [apply ok_ws1, Hs | | intros rest _; reflexivity].
+        eapply (okseq_cons _ _ _ _ _ _ _ _ _ _ any any); [| apply (okseq_nil _ _ _ _ any) | intros; exact I].
+        apply (okref _ _ _ _ _ _ _ env_id_param_list). unfold def_rfc2971_x_id_param_list.
+        apply ok_alt_here. eapply ok_map; [|reflexivity].
+        apply (okref _ _ _ _ _ _ _ env_id_not_nil). unfold def_rfc2971_x_id_param_list_not_nil. fold id_more_item. fold proj12. fold close_g.
+        eapply ok_map.
+        { apply ok_seq. regroup ([40] ++ (wf ++ (wl ++ ((s0 ++ [41]) ++ [])))).
+          eapply (okseq_cons _ _ _ _ _ _ _ _ _ _ any any); [apply ok_tag | | intros; exact I].
+          eapply (okseq_cons _ _ _ _ _ _ _ _ _ _ any any); [apply ok_id_param, Hf | | intros; exact I].
+          eapply (okseq_cons _ _ _ _ _ _ _ _ _ _ id_end any); [apply ok_many0, Hmany | |].
+          - eapply (okseq_cons _ _ _ _ _ _ _ _ _ _ any any); [| apply (okseq_nil _ _ _ _ any) | intros; exact I].
+            unfold close_g. eapply ok_map.
+            { apply ok_seq. regroup (s0 ++ ([41] ++ [])).
+              eapply (okseq_cons _ _ _ _ _ _ _ _ _ _ (stops_at nom_is_space) any); [apply ok_take_while, H0 | | intros rest _; reflexivity].
+              eapply (okseq_cons _ _ _ _ _ _ _ _ _ _ any any); [apply ok_tag | apply (okseq_nil _ _ _ _ any) | intros; exact I]. }
+            reflexivity.
+          - intros rest _. exists s0, rest. split; [exact H0|]. rewrite <- !app_assoc. reflexivity. }
+        (* the native: collect the fields into the map *)
+        unfold act. cbn [a_pat a_body bind eval eval_list of_lres lookup String.eqb Ascii.eqb Bool.eqb].
+        unfold native_call. cbn [String.eqb Ascii.eqb Bool.eqb]. rewrite (id_params_value f l vs Hmap), <- Hm. reflexivity. }
+      reflexivity. }
+    reflexivity.
+Qed.
+
+Theorem id_roundtrip v body sp : enc_id v body -> enc_spaces sp -> forall rest,
+  parse ((bs "* " ++ body ++ sp ++ [13; 10]) ++ rest) = ROk rest v (nlen (bs "* " ++ body ++ sp ++ [13; 10])).
+Proof.
+  intros Hb Hsp rest. apply (untagged_lift_gen body v any sp (fun d => ok_id v body d Hb) Hsp). intros; exact I.
+Qed.
+
+(* ---------------------------------------------------------------- METADATA *)
+Lemma env_md_solicited : env f_rfc5464_x_metadata_solicited = Some def_rfc5464_x_metadata_solicited. Proof. reflexivity. Qed.
+Lemma env_md_unsolicited : env f_rfc5464_x_metadata_unsolicited = Some def_rfc5464_x_metadata_unsolicited. Proof. reflexivity. Qed.
+Lemma env_md_common : env f_rfc5464_x_metadata_common = Some def_rfc5464_x_metadata_common. Proof. reflexivity. Qed.
+Lemma env_keyval_list : env f_rfc5464_x_keyval_list = Some def_rfc5464_x_keyval_list. Proof. reflexivity. Qed.
+Lemma env_entry_list : env f_rfc5464_x_entry_list = Some def_rfc5464_x_entry_list. Proof. reflexivity. Qed.
+Lemma env_nil_value : env f_rfc5464_x_nil_value = Some def_rfc5464_x_nil_value. Proof. reflexivity. Qed.
+Lemma env_string_value : env f_rfc5464_x_string_value = Some def_rfc5464_x_string_value. Proof. reflexivity. Qed.
+Definition def_entry_name : G := MapRes (mk_action (PVar "x") (ACall "check_entry_name" [AVar "x"])) (Ref f_core_x_astring DSame).
+Lemma env_entry_name : env f_rfc5464_x_entry_name = Some def_entry_name. Proof. reflexivity. Qed.
+
+Lemma comp_ascii c : cls_rfc5464_x_is_entry_component_char c = true -> (c <=? 127) = true.
+Proof.
+  unfold cls_rfc5464_x_is_entry_component_char. intro H. repeat (apply andb_true_iff in H; destruct H as [H _]).
+  apply N.ltb_lt in H. apply N.leb_le. lia.
+Qed.
+
+Lemma rfc_path_ascii p : rfc_path p -> Forall (fun b => (b <=? 127) = true) p.
+Proof.
+  intro H. induction H as [| c r Hc Hr IH]; [constructor|]. apply Forall_app. split; [repeat constructor|]. apply Forall_app. split; [|exact IH].
+  apply Forall_forall. intros x Hx. rewrite forallb_forall in Hc. exact (comp_ascii x (Hc x Hx)).
+Qed.
+
+Lemma rfc_entry_ascii e : rfc_entry e -> forallb (fun b => b <=? 127) e = true.
+Proof.
+  intro H. apply forallb_forall. apply Forall_forall.
+  destruct H as [p Hp | p Hp | p Hp | c0 c p H0 Hc Hp | c0 c p H0 Hc Hp]; apply Forall_app; split; try (repeat constructor; fail);
+    try exact (rfc_path_ascii p Hp).
+  - apply Forall_app. split; [|exact (rfc_path_ascii p Hp)]. constructor; [exact (comp_ascii c0 H0)|].
+    apply Forall_forall. intros x Hx. rewrite forallb_forall in Hc. exact (comp_ascii x (Hc x Hx)).
+  - apply Forall_app. split; [|exact (rfc_path_ascii p Hp)]. constructor; [exact (comp_ascii c0 H0)|].
+    apply Forall_forall. intros x Hx. rewrite forallb_forall in Hc. exact (comp_ascii x (Hc x Hx)).
+Qed.
+
+Lemma rfc_entry_head e : rfc_entry e -> exists r, e = 47 :: r.
+Proof. intros []; eexists; reflexivity. Qed.
+
+Definition entry_str : G := MapRes (mk_action (PVar "x") (ACall "rfc5464::slice_to_str" [AVar "x"])) (Ref f_rfc5464_x_entry_name DSame).
+
+Lemma ok_entry_str e w d : rfc_entry e -> enc_astring e w -> OK entry_str d w (VBytes e) (stops_at cls_core_x_is_astring_char).
+Proof.
+  intros He Hw. unfold entry_str. eapply ok_mapres.
+  { apply (okref _ _ _ _ _ _ _ env_entry_name). unfold def_entry_name. eapply ok_mapres; [apply ok_astring, Hw|].
+    cbn. unfold native_call. cbn. rewrite (entry_names_accepted e He). reflexivity. }
+  cbn. unfold native_call. cbn. rewrite (ascii_utf8 e (rfc_entry_ascii e He)). reflexivity.
+Qed.
+
+Lemma entry_wire_head e w : rfc_entry e -> enc_astring e w -> exists c r, w = c :: r /\ (c = 47 \/ c = 34 \/ c = 123).
+Proof.
+  intros He Hw. inversion Hw as [s Hne Hs E1 E2 | s w0 Hs E1 E2]; subst.
+  - destruct (rfc_entry_head _ He) as (r & E). rewrite E. eexists _, _. split; [reflexivity|]. left. reflexivity.
+  - destruct (enc_string_head _ _ Hs) as (c & r & -> & [-> | ->]); eexists _, _; (split; [reflexivity|]); auto.
+Qed.
+
+Definition md_value_g : G := Alt [(Ref f_rfc5464_x_nil_value DSame); (Ref f_rfc5464_x_string_value DSame)].
+
+Lemma ok_md_value v w d : enc_md_value v w -> OK md_value_g d w v any.
+Proof.
+  intros [w0 Hn | s w0 Hs Hu]; unfold md_value_g.
+  - apply ok_alt_here. apply (okref _ _ _ _ _ _ _ env_nil_value). unfold def_rfc5464_x_nil_value.
+    destruct Hn as [w1 Hk]. eapply ok_map; [apply ok_tag_nc, Hk | reflexivity].
+  - apply ok_alt_skip.
+    { intros rest _. destruct (enc_string_head s w0 Hs) as (c & r & -> & Hc). cbn [app].
+      apply (rejref _ _ _ _ _ env_nil_value). unfold def_rfc5464_x_nil_value. apply rej_map.
+      destruct Hc as [-> | ->]; apply rej_tag_nc; reflexivity. }
+    apply ok_alt_here. apply (okref _ _ _ _ _ _ _ env_string_value). unfold def_rfc5464_x_string_value.
+    eapply ok_mapres.
+    { destruct Hs as [s' w' Hq | s' w' Hl].
+      - apply ok_alt_here. apply ok_quoted, Hq.
+      - apply ok_alt_skip; [|apply ok_alt_here, ok_literal, Hl].
+        intros rest _. destruct Hl as [s'' ds]. cbn [app]. apply (rejref _ _ _ _ _ env_quoted). unfold def_core_x_quoted.
+        apply rej_map, rej_seq_head, rej_tag. reflexivity. }
+    cbn. unfold native_call. cbn. rewrite Hu. reflexivity.
+Qed.
+
+Definition md_pair_g : G :=
+  Map (mk_action (PTuple [PVar "key"%string; PWild; PVar "value"%string]) (ARec "Metadata"%string [("entry"%string, AVar "key"); ("value"%string, AVar "value")]))
+      (Seq [entry_str; (Leaf (LTag (bs " "))); md_value_g]).
+
+Lemma ok_md_pair p w d : enc_md_pair p w -> OK md_pair_g d w p any.
+Proof.
+  intros [e we v wv He Hwe Hv]. unfold md_pair_g. eapply ok_map.
+  { apply ok_seq. unfold SPb. regroup (we ++ ([32] ++ (wv ++ []))).
+    eapply (okseq_cons _ _ _ _ _ _ _ _ _ _ (stops_at cls_core_x_is_astring_char) any); [apply ok_entry_str; eassumption | | intros rest _; reflexivity].
+    eapply (okseq_cons _ _ _ _ _ _ _ _ _ _ any any); [apply ok_tag | | intros; exact I].
+    eapply (okseq_cons _ _ _ _ _ _ _ _ _ _ any any); [apply ok_md_value, Hv | apply (okseq_nil _ _ _ _ any) | intros; exact I]. }
+  reflexivity.
+Qed.
+
+Lemma oksep_md_pairs l ws d : enc_md_pairs_more l ws -> OkSep native_call env rk (Leaf (LTag (bs " "))) md_pair_g d ws l closes.
+Proof.
+  intro H. induction H as [| p w l ws Hp Hl IH].
+  - apply oksep_nil. intros rest Hr. destruct rest as [|c r]; [destruct Hr|]. cbn in Hr. subst c. apply rej_tag. reflexivity.
+  - unfold SPb. eapply (oksep_cons _ _ _ _ _ _ _ _ _ _ _ _ any any); [apply ok_tag | discriminate | apply ok_md_pair, Hp | exact IH | intros; exact I | intros; exact I].
+Qed.
+
+Definition entry_item : G := Map (mk_action (PVar "x") (AVar "x")) entry_str.
+
+Lemma rej_entry_item_blank c r d : c = 32 \/ c = 13 -> REJ entry_item d (c :: r).
+Proof. intros [-> | ->]; apply (fails_on_byte native_call env rk rank_ok_all 8); vm_compute; reflexivity. Qed.
+
+Lemma oksep_md_entries l ws d : enc_md_entries_more l ws ->
+  OkSep native_call env rk (Leaf (LTag (bs " "))) entry_item d ws l qr_end.
+Proof.
+  intro H. induction H as [| e w l ws He Hw Hl IH].
+  - apply oksep_nil_elem. intros rest (sp & r & Hsp & ->). destruct Hsp as [| sp' Hsp'].
+    + left. cbn [app]. apply rej_tag. reflexivity.
+    + right. exists [32], (VBytes [32]), (sp' ++ 13 :: r), any. split; [reflexivity|]. split; [apply ok_tag|]. split; [exact I|].
+      split; [discriminate|]. destruct Hsp' as [| sp'' _]; cbn [app]; apply rej_entry_item_blank; [right | left]; reflexivity.
+  - unfold SPb. eapply (oksep_cons _ _ _ _ _ _ _ _ _ _ _ _ any (stops_at cls_core_x_is_astring_char)).
+    + apply ok_tag.
+    + discriminate.
+    + unfold entry_item. eapply ok_map; [apply ok_entry_str; eassumption | reflexivity].
+    + exact IH.
+    + intros rest Hr. destruct Hl; cbn [app]; [apply qr_end_stops, Hr | reflexivity].
+    + intros; exact I.
+Qed.
+
+Lemma ok_md_common k m wm d : same_nocase (bs "METADATA ") k = true -> enc_mailbox m wm ->
+  OK (Ref f_rfc5464_x_metadata_common DSame) d (k ++ wm ++ SPb) (VBytes m) any.
+Proof.
+  intros Hk Hm. apply (okref _ _ _ _ _ _ _ env_md_common). unfold def_rfc5464_x_metadata_common.
+  eapply ok_map.
+  { apply ok_seq. unfold SPb. regroup (k ++ (wm ++ ([32] ++ []))).
+    eapply (okseq_cons _ _ _ _ _ _ _ _ _ _ any any); [apply ok_tag_nc, Hk | | intros; exact I].
+    eapply (okseq_cons _ _ _ _ _ _ _ _ _ _ (stops_at cls_core_x_is_astring_char) any); [apply ok_mailbox, Hm | | intros rest _; reflexivity].
+    eapply (okseq_cons _ _ _ _ _ _ _ _ _ _ any any); [apply ok_tag | apply (okseq_nil _ _ _ _ any) | intros; exact I]. }
+  reflexivity.
+Qed.
+
+Lemma ok_metadata v body d : enc_metadata v body -> OK (Alt rd_alts) d body v qr_end.
+Proof.
+  intros [k m wm p wp l wl Hk Hm Hp Hl | k m wm e we l wl Hk Hm He Hwe Hl]; unfold kw in Hk; unfold rd_alts; cbn [def_rfc3501_x_response_data].
+  - apply (Ok_follow _ _ _ _ _ _ _ any); [|intros; exact I].
+    do 6 (apply (skip_kw _ _ (bs "METADATA ") _ _ _ _ _ Hk); [vm_compute; reflexivity|]).
+    apply ok_alt_here. apply (okref _ _ _ _ _ _ _ env_md_solicited). unfold def_rfc5464_x_metadata_solicited.
+    eapply ok_map.
+    { apply ok_seq. regroup ((k ++ wm ++ SPb) ++ (([40] ++ wp ++ wl ++ [41]) ++ [])).
+      eapply (okseq_cons _ _ _ _ _ _ _ _ _ _ any any); [apply ok_md_common; eassumption | | intros; exact I].
+      eapply (okseq_cons _ _ _ _ _ _ _ _ _ _ any any); [| apply (okseq_nil _ _ _ _ any) | intros; exact I].
+      apply (okref _ _ _ _ _ _ _ env_keyval_list). unfold def_rfc5464_x_keyval_list. fold entry_str. fold md_value_g. fold md_pair_g.
+      eapply ok_map.
+      { apply ok_seq. regroup ([40] ++ ((wp ++ wl) ++ ([41] ++ []))).
+        eapply (okseq_cons _ _ _ _ _ _ _ _ _ _ any any); [apply ok_tag | | intros; exact I].
+        eapply (okseq_cons _ _ _ _ _ _ _ _ _ _ closes any).
+        - eapply (ok_seplist1 _ _ _ _ _ _ _ _ _ _ any); [apply ok_md_pair, Hp | apply oksep_md_pairs, Hl | intros; exact I].
+        - eapply (okseq_cons _ _ _ _ _ _ _ _ _ _ any any); [apply ok_tag | apply (okseq_nil _ _ _ _ any) | intros; exact I].
+        - intros rest _. reflexivity. }
+      reflexivity. }
+    reflexivity.
+  - do 6 (apply (skip_kw _ _ (bs "METADATA ") _ _ _ _ _ Hk); [vm_compute; reflexivity|]).
+    apply ok_alt_skip.
+    { (* the solicited form wants "(" where the first entry stands *)
+      intros rest _. apply (rejref _ _ _ _ _ env_md_solicited). unfold def_rfc5464_x_metadata_solicited. apply rej_map.
+      replace ((k ++ wm ++ SPb ++ we ++ wl) ++ rest) with ((k ++ wm ++ SPb) ++ (we ++ wl ++ rest)) by (rewrite <- !app_assoc; reflexivity).
+      eapply (rej_seq_after _ _ _ _ _ _ _ _ any); [apply ok_md_common; eassumption | exact I |]. apply rejseq_head.
+      apply (rejref _ _ _ _ _ env_keyval_list). unfold def_rfc5464_x_keyval_list. apply rej_map, rej_seq_head.
+      destruct (entry_wire_head e we He Hwe) as (c & r & -> & Hc). cbn [app].
+      apply rej_tag. destruct Hc as [-> | [-> | ->]]; reflexivity. }
+    apply ok_alt_here. apply (okref _ _ _ _ _ _ _ env_md_unsolicited). unfold def_rfc5464_x_metadata_unsolicited.
+    eapply ok_map.
+    { apply ok_seq. regroup ((k ++ wm ++ SPb) ++ ((we ++ wl) ++ [])).
+      eapply (okseq_cons _ _ _ _ _ _ _ _ _ _ any qr_end); [apply ok_md_common; eassumption | | intros; exact I].
+      eapply (okseq_cons _ _ _ _ _ _ _ _ _ _ qr_end qr_end); [| apply (okseq_nil _ _ _ _ qr_end) | intros r Hr; exact Hr].
+      apply (okref _ _ _ _ _ _ _ env_entry_list). unfold def_rfc5464_x_entry_list. fold entry_str. fold entry_item.
+      eapply (ok_seplist0 _ _ _ _ _ _ _ _ _ _ (stops_at cls_core_x_is_astring_char)).
+      - unfold entry_item. eapply ok_map; [apply ok_entry_str; eassumption | reflexivity].
+      - apply oksep_md_entries, Hl.
+      - intros rest Hr. destruct Hl; cbn [app]; [apply qr_end_stops, Hr | reflexivity]. }
+    reflexivity.
+Qed.
+
+Theorem metadata_roundtrip v body sp : enc_metadata v body -> enc_spaces sp -> forall rest,
+  parse ((bs "* " ++ body ++ sp ++ [13; 10]) ++ rest) = ROk rest v (nlen (bs "* " ++ body ++ sp ++ [13; 10])).
+Proof.
+  intros Hb Hsp rest. apply (untagged_lift_gen body v qr_end sp (fun d => ok_metadata v body d Hb) Hsp).
+  intro r. exists sp, (10 :: r). split; [exact Hsp | reflexivity].
+Qed.
+
 (* ---------------------------------------------------------------- all of the above, as one statement *)
 Theorem response_roundtrip v w : enc_response v w -> forall rest, parse (w ++ rest) = ROk rest v (nlen w).
 Proof.
   intros [v0 w0 H | v0 w0 H | v0 w0 H | v0 w0 H | v0 w0 H | v0 w0 H | v0 w0 H | v0 w0 H
-         | v0 body sp H Hsp | v0 body sp H Hsp | v0 body sp H Hsp | v0 body sp H Hsp] rest.
+         | v0 body sp H Hsp | v0 body sp H Hsp | v0 body sp H Hsp | v0 body sp H Hsp | v0 body sp H Hsp | v0 body sp H Hsp] rest.
   - apply fetch_roundtrip, H.
   - apply data_roundtrip, H.
   - apply status_roundtrip, H.
@@ -2600,8 +3263,11 @@ Proof.
   - apply enabled_roundtrip; assumption.
   - apply quotaroot_roundtrip; assumption.
   - apply myrights_roundtrip; assumption.
+  - apply id_roundtrip; assumption.
+  - apply metadata_roundtrip; assumption.
 Qed.
 
 Corollary same_value_same_parse_any v w1 w2 r1 r2 : enc_response v w1 -> enc_response v w2 ->
   parse (w1 ++ r1) = ROk r1 v (nlen w1) /\ parse (w2 ++ r2) = ROk r2 v (nlen w2).
 Proof. intros H1 H2. split; apply response_roundtrip; assumption. Qed.
+
